@@ -41,7 +41,7 @@ def one(name):
 names = []
 for pid in sys.argv[1:]:
   names += sorted(d for d in os.listdir(SRC) if d.startswith(pid + '_') and os.path.isdir(os.path.join(SRC, d))
-                  and d[len(pid) + 1:].isdigit())
+                  and d[len(pid) + 1:].isdigit() and not os.path.exists(os.path.join("/verif/refactors", d)))
 with ThreadPoolExecutor(6) as ex:
   for name, st, bad in ex.map(one, names):
     print(name, st, 'all 20 silent' if st == 'ok' and not bad else '')
